@@ -44,6 +44,18 @@ def gen_cases(ctx):
         spec = zoo.gen_spec(rng, kind, n, n, batch, depth=rng.choice([1, 2, 2, 3]), dtype=dtype, root=root)
         if spec is None:
             continue
+        if spec["cls"] in ("SumKron", "Kron", "KronAddedDiag") and spec["kind"] == "pd" and rng.random() < 0.5:
+            # Kronecker factors that are operators with factorizations of their own (a RootLinearOperator with a non-triangular root,
+            # sums, scaled operators ...): the structured roots are assembled from the FACTORS' roots / inverse roots
+            krons = [spec] if spec["cls"] == "Kron" else [c for c in spec["children"] if c["cls"] == "Kron"]
+            if krons:
+                kr = krons[-1]
+                j = rng.randrange(len(kr["children"]))
+                f = kr["children"][j]
+                if f["n"] == f["m"] and f["n"] >= 2:
+                    sub = zoo.gen_spec(rng, "pd", f["n"], f["n"], f["batch"], depth=1, dtype=f["dtype"], root=rng.choice(["Root", "Root", "AddedDiag", "ConstantMul", "PsdSum"]))
+                    if sub is not None:
+                        kr["children"][j] = sub
         method = None
         if q == "root_decomposition":
             method = rng.choice(ROOT_METHODS)
@@ -133,7 +145,9 @@ def run_case(case, ctx):
         return
     key = f"{spec['cls']}|{oname}|{pathk}|{settings_key(cfg)}|{spec['dtype']}"
     eps = torch.finfo(dt).eps
-    scale = lam_max if lam_max > 1e-12 else 1.0
+    # relative to the matrix, but never below 1e-2: psd_safe_cholesky and the Lanczos post-processing add an ABSOLUTE jitter (1e-8 .. 1e-4),
+    # so a matrix of norm 1e-9 (a rank-1 kernel column squared) cannot be reproduced to a relative tolerance
+    scale = max(lam_max, 1e-2)
     kap = kappa if kappa != float("inf") else 1.0
     tol = min(2000 * eps * max(min(kap, 1e6), 1.0) + 200 * eps, 0.5)
     if zoo.spec_classes(spec) & {"Toeplitz", "Interpolated"}:
